@@ -175,12 +175,21 @@ FillFold(v, idx, solvent, T, u, k, cls, ys) ==
        ELSE FillFold([v EXCEPT !.w[Head(idx)] = r.w], Tail(idx), solvent, T, u, k + 1,
                      Combine(cls, r.cls), Append(ys, r.y))
 
-Remove(c) ==
+\* pure form: the vessels after removing c.what from region c.r of vessel c.n, and what was removed (summed)
+RemoveV(V, c) ==
+  LET RG == RegTab[c.n][c.r] IN
+  [V EXCEPT ![c.n].w = [i \in DOMAIN V[c.n].w |->
+      IF i \in SeqRange(RG.wells) THEN RemoveOp(V[c.n].w[i], c.what) ELSE V[c.n].w[i]]]
+
+RemovedV(V, c) ==
   LET RG == RegTab[c.n][c.r]
-      nv == [ves[c.n] EXCEPT !.w = [i \in DOMAIN ves[c.n].w |->
-                IF i \in SeqRange(RG.wells) THEN RemoveOp(ves[c.n].w[i], c.what) ELSE ves[c.n].w[i]]]
-  IN  /\ RG.ok
-      /\ ves' = [ves EXCEPT ![c.n] = nv]
+      idx == {RG.wells[j] : j \in DOMAIN RG.wells}      \* a well listed twice is emptied once
+  IN  [s \in Subst |-> SumOver(idx, [i \in idx |-> RemovedC(V[c.n].w[i].c, c.what)[s]])]
+
+Remove(c) ==
+  LET RG == RegTab[c.n][c.r] IN
+      /\ RG.ok
+      /\ ves' = RemoveV(ves, c)
       /\ last' = [op |-> "remove", n |-> c.n, r |-> c.r, what |-> c.what, res |-> "ok", cls |-> "interior",
                   wells |-> RG.wells]
 
@@ -192,13 +201,17 @@ FillTargets(c, RG) ==
       byCap == IF c.u = "L" /\ cap # Inf THEN {cap, Add(cap, CapStep)} ELSE {}
   IN  {T \in byDelta \cup byCap : IsPos(T)}
 
-FillTo(c, T) ==
+FillV(V, c, T) ==
   LET RG == RegTab[c.n][c.r]
-      r == FillFold(ves[c.n], RG.wells, c.solvent, T, c.u, 1, "interior", <<>>)
-  IN  /\ ves' = IF r.ok THEN [ves EXCEPT ![c.n] = r.v] ELSE ves
+      r == FillFold(V[c.n], RG.wells, c.solvent, T, c.u, 1, "interior", <<>>)
+  IN  [ok |-> r.ok, V |-> IF r.ok THEN [V EXCEPT ![c.n] = r.v] ELSE V, cls |-> r.cls, at |-> r.at, ys |-> r.ys]
+
+FillTo(c, T) ==
+  LET r == FillV(ves, c, T) IN
+      /\ ves' = r.V
       /\ last' = [op |-> "fill_to", n |-> c.n, r |-> c.r, solvent |-> c.solvent, u |-> c.u, T |-> T,
                   res |-> IF r.ok THEN "ok" ELSE "ValueError", cls |-> r.cls, at |-> r.at,
-                  wells |-> RG.wells, ys |-> r.ys]
+                  wells |-> RegTab[c.n][c.r].wells, ys |-> r.ys]
 
 FillAny == \E i \in DOMAIN FillCases : InShard(i) /\ LET c == FillCases[i] IN RegTab[c.n][c.r].ok /\ \E T \in FillTargets(c, RegTab[c.n][c.r]) : FillTo(c, T)
 
@@ -213,14 +226,19 @@ DiluteTargets(c) ==
       ELSE {Conc(Plus(w.c, Only(c.solvent, y)), c.solute, c.nu, c.du) : y \in DiluteYs}
            \cup {Mul(R(3, 2), Div(num, den))}
 
+DiluteV(V, c, t) ==
+  LET w == V[c.n].w[1]
+      r == DiluteOp(w, V[c.n].cap, c.solute, c.nu, c.du, c.solvent, t)
+      ok == Feasible(r.cls)
+  IN  [ok |-> ok, V |-> IF ok THEN [V EXCEPT ![c.n].w[1] = r.w] ELSE V, cls |-> r.cls, y |-> IF ok THEN r.y ELSE Zero]
+
 Dilute(c, t) ==
   LET w == ves[c.n].w[1]
-      r == DiluteOp(w, ves[c.n].cap, c.solute, c.nu, c.du, c.solvent, t)
-      ok == Feasible(r.cls)
-  IN  /\ ves' = IF ok THEN [ves EXCEPT ![c.n].w[1] = r.w] ELSE ves
+      r == DiluteV(ves, c, t)
+  IN  /\ ves' = r.V
       /\ last' = [op |-> "dilute", n |-> c.n, solute |-> c.solute, nu |-> c.nu, du |-> c.du,
-                  solvent |-> c.solvent, t |-> t, res |-> IF ok THEN "ok" ELSE "ValueError", cls |-> r.cls,
-                  y |-> IF ok THEN r.y ELSE Zero,
+                  solvent |-> c.solvent, t |-> t, res |-> IF r.ok THEN "ok" ELSE "ValueError", cls |-> r.cls,
+                  y |-> r.y,
                   ncomp |-> Cardinality(Support(w.c) \cup {c.solvent}),
                   solventPresent |-> ~IsZero(w.c[c.solvent])]
 
@@ -230,12 +248,16 @@ DiluteAny == \E i \in DOMAIN DiluteCases : InShard(i) /\ LET c == DiluteCases[i]
 (***************************************************************************)
 (* Container(name, max_volume, initial_contents)                           *)
 (***************************************************************************)
-New(c) ==
+NewV(V, c) ==
   LET r == BuildFrom(EmptyWell, c.cap, c.entries)
       ok == Feasible(r.cls)
-  IN  /\ ves' = IF ok THEN [ves EXCEPT ![c.n] = [cap |-> c.cap, w |-> <<r.w>>]] ELSE ves
+  IN  [ok |-> ok, V |-> IF ok THEN [V EXCEPT ![c.n] = [cap |-> c.cap, w |-> <<r.w>>]] ELSE V, cls |-> r.cls]
+
+New(c) ==
+  LET r == NewV(ves, c) IN
+      /\ ves' = r.V
       /\ last' = [op |-> "new", n |-> c.n, cap |-> c.cap, entries |-> c.entries,
-                  res |-> IF ok THEN "ok" ELSE "ValueError", cls |-> r.cls]
+                  res |-> IF r.ok THEN "ok" ELSE "ValueError", cls |-> r.cls]
 
 NewAny == \E i \in DOMAIN NewCases : InShard(i) /\ New(NewCases[i])
 
